@@ -22,6 +22,39 @@ type FuncReport struct {
 	fn          *ssa.Function
 	final       *State
 	results     []Val
+	pre         *EvalCtx
+}
+
+// holdsOutside re-asks a failed obligation with the known-finding scenario excluded.
+func (rep *FuncReport) holdsOutside(o *Obligation, scenario string, outDir string, timeout int) (ok bool, why string) {
+	defer func() {
+		if r := recover(); r != nil {
+			if ep, isEP := r.(execPanic); isEP {
+				ok, why = false, "scenario does not evaluate: "+ep.msg
+				return
+			}
+			panic(r)
+		}
+	}()
+	e, err := parseSpecExpr(scenario)
+	if err != nil {
+		return false, err.Error()
+	}
+	ex := rep.ex
+	cl := &Clause{Text: scenario, Expr: e, File: "known_findings.txt"}
+	ex.noOblige++
+	t := ex.evalBool(rep.pre, cl)
+	ex.noOblige--
+	file := oblFile(outDir, o.Name+".outside-known")
+	writeFile(file, ex.renderOpt(o, []*Term{ex.p.Not(t)}, false, false))
+	r := Solve(file, timeout, false, false)
+	if r.Status == "unsat" {
+		return true, ""
+	}
+	return false, r.Status
+}
+
+type unusedCheck struct {
 }
 
 func hasProp(props []string, id string) bool {
@@ -78,6 +111,7 @@ func CheckFunc(P *Program, fn *ssa.Function, c *FuncContract) (rep *FuncReport) 
 	}
 	ex.old = st.fork()
 	pre := &EvalCtx{ex: ex, st: st, old: ex.old, vars: vars, pkgPath: c.PkgPath}
+	rep.pre = &EvalCtx{ex: ex, st: ex.old, old: ex.old, vars: vars, pkgPath: c.PkgPath}
 	var reqs []*Term
 	for _, r := range c.Requires {
 		t := ex.evalBool(pre, r)
@@ -86,6 +120,7 @@ func CheckFunc(P *Program, fn *ssa.Function, c *FuncContract) (rep *FuncReport) 
 	}
 	// old state must see regions created while evaluating requires
 	ex.old = st.fork()
+	rep.pre.st, rep.pre.old = ex.old, ex.old
 	// vacuity guard: the preconditions must be satisfiable
 	{
 		o := &Obligation{Name: ex.fnName(fn) + "#requires-sat", Kind: "requires-sat", Detail: "preconditions are satisfiable (cover)",
@@ -282,33 +317,47 @@ func CheckLemma(P *Program, l *Lemma, pkgPath string) *FuncReport {
 }
 
 // addFieldInputs: for pointer parameters, the fields of the pointee in the pre-state become named inputs
-// (so that counterexamples show them).
+// (so that counterexamples show them), recursively through pointer fields to a small depth.
 func (ex *Exec) addFieldInputs(fn *ssa.Function) {
-	for _, prm := range fn.Params {
-		pt, ok := prm.Type().Underlying().(*types.Pointer)
-		if !ok {
-			continue
+	var rec func(key string, base *Term, t types.Type, depth int)
+	rec = func(key string, base *Term, t types.Type, depth int) {
+		pt, ok := t.Underlying().(*types.Pointer)
+		if !ok || depth > 2 {
+			return
 		}
 		if isNamed(pt.Elem(), "math/big", "Int") {
 			if _, known := ex.regionSorts["gf:bigval"]; known {
-				ex.inputs["in:"+prm.Name()+"#bigval"] = ex.p.Select(ex.regionAt("gf:bigval", 0), ex.inputs["in:"+prm.Name()])
+				ex.inputs[key+"#bigval"] = ex.p.Select(ex.regionAt("gf:bigval", 0), base)
 			}
-			continue
+			return
+		}
+		if isHashType(pt.Elem()) || isAddrType(pt.Elem()) {
+			name := "*" + shortTypeName(pt.Elem())
+			if _, known := ex.regionSorts[name]; known {
+				ex.inputs[key+"#deref"] = ex.p.Select(ex.regionAt(name, 0), base)
+			}
+			return
 		}
 		sT, ok := derefStruct(pt.Elem())
-		if !ok || isHashType(pt.Elem()) || isAddrType(pt.Elem()) {
-			continue
-		}
-		base := ex.inputs["in:"+prm.Name()]
-		if base == nil {
-			continue
+		if !ok {
+			return
 		}
 		for i := 0; i < sT.NumFields(); i++ {
 			name := fieldRegion(pt.Elem(), sT, i)
 			if _, known := ex.regionSorts[name]; !known {
 				continue
 			}
-			ex.inputs["in:"+prm.Name()+"."+sT.Field(i).Name()] = ex.p.Select(ex.regionAt(name, 0), base)
+			v := ex.p.Select(ex.regionAt(name, 0), base)
+			k := key + "." + sT.Field(i).Name()
+			ex.inputs[k] = v
+			rec(k, v, sT.Field(i).Type(), depth+1)
 		}
+	}
+	for _, prm := range fn.Params {
+		base := ex.inputs["in:"+prm.Name()]
+		if base == nil {
+			continue
+		}
+		rec("in:"+prm.Name(), base, prm.Type(), 0)
 	}
 }
